@@ -7,7 +7,7 @@
 From Coq Require Import ZArith Bool List Lia.
 From MomoCommon Require Import GenPrelude.
 From C15 Require Import Gen_VersionKeeper Gen_ArrayIndexIterator Gen_ArrayShifter Gen_ArrayGuards Gen_MultiMapGuards
-  Gen_SelectionGuards Gen_TableGuards Gen_TreeIterator Gen_SegmentedArrayGuards Version VersionProofs Arr.
+  Gen_SelectionGuards Gen_TableGuards Gen_TreeIterator Gen_SegmentedArrayGuards Gen_DataRawIterator Version VersionProofs Arr.
 Local Open Scope Z_scope.
 
 Definition U64 (x : Z) : Prop := 0 <= x < 2 ^ 64.
@@ -81,36 +81,54 @@ Lemma index_guards_same_code cnt i :
 Proof. repeat split; reflexivity. Qed.
 
 (* ---------- ArrayIndexIterator ---------- *)
-(* operator+= with the real size_t / ptrdiff_t conversions: for an iterator inside its array (0 <= index <= count < 2^63) and any
-   ptrdiff_t diff it is accepted exactly when the mathematical index + diff stays in [0, count], and then stores exactly that *)
+(* operator+= (since e44962b: `size_t newIndex = mIndex + static_cast<size_t>(diff)`, a modular 64-bit sum, no signed addition):
+   for an iterator inside its array (0 <= index <= count < 2^63) and ANY ptrdiff_t diff -- no assumption on the size of index + diff --
+   it is accepted exactly when the mathematical index + diff stays in [0, count] (every wrapped value is rejected), and then stores it *)
+Lemma mod64_eq x y q : 0 <= y < 2 ^ 64 -> x = 2 ^ 64 * q + y -> x mod 2 ^ 64 = y.
+Proof. intros Hy E. symmetry. apply (Z.mod_unique x (2 ^ 64) q y); [left; exact Hy|exact E]. Qed.
+Lemma wrapU_add_signed i d :
+  0 <= i < 2 ^ 63 -> - 2 ^ 63 <= d < 2 ^ 63 ->
+  wrapU 64 (i + wrapU 64 d) = if 0 <=? i + d then i + d else i + d + 2 ^ 64.
+Proof.
+  intros Hi Hd. unfold wrapU.
+  assert (D : d mod 2 ^ 64 = if 0 <=? d then d else d + 2 ^ 64).
+  { destruct (Z.leb_spec 0 d); [apply (mod64_eq d d 0); lia|apply (mod64_eq d (d + 2 ^ 64) (-1)); lia]. }
+  rewrite D.
+  destruct (Z.leb_spec 0 (i + d)) as [P|P]; destruct (Z.leb_spec 0 d) as [Q|Q].
+  - apply (mod64_eq _ _ 0); lia.
+  - apply (mod64_eq _ _ 1); lia.
+  - lia.
+  - apply (mod64_eq _ _ 0); lia.
+Qed.
 Lemma arrit_advance_exact (count_of : Z -> Z) mArray mIndex diff :
   mArray <> 0 -> 0 <= mIndex <= count_of mArray -> count_of mArray < 2 ^ 63 -> - 2 ^ 63 <= diff < 2 ^ 63 ->
   op_add_assign count_of mArray mIndex diff =
     if (0 <=? mIndex + diff) && (mIndex + diff <=? count_of mArray) then Ok (tt, mIndex + diff) else Exn.
 Proof.
-  intros NZ Hi Hc Hd. unfold op_add_assign, Gen_ArrayIndexIterator.checkMode. cbv zeta. simpl.
-  destruct (Z.eqb_spec mArray 0); [congruence|]. simpl.
-  assert (WS : wrapS 64 mIndex = mIndex).
-  { unfold wrapS. rewrite Z.mod_small by lia. destruct (Z.ltb_spec mIndex (2 ^ (64 - 1))); [reflexivity|simpl in *; lia]. }
-  rewrite WS.
-  destruct (Z.leb_spec 0 (mIndex + diff)) as [P|P]; simpl.
-  - rewrite (wrapU_small 64 (mIndex + diff)) by lia.
-    destruct (Z.leb_spec (mIndex + diff) (count_of mArray)); reflexivity.
-  - assert (W : wrapU 64 (mIndex + diff) = mIndex + diff + 2 ^ 64).
-    { unfold wrapU. rewrite <- (Z.mod_add _ 1) by lia. rewrite Z.mod_small by lia. lia. }
-    rewrite W. destruct (Z.leb_spec (mIndex + diff + 2 ^ 64) (count_of mArray)); [lia|reflexivity].
+  intros NZ Hi Hc Hd. unfold op_add_assign, Gen_ArrayIndexIterator.checkMode. cbv zeta.
+  rewrite (wrapU_add_signed mIndex diff) by lia.
+  change (negb (2 =? 1)) with true. change (2 =? 2) with true. cbn [orb].
+  destruct (Z.eqb_spec mArray 0); [congruence|]. cbn [negb].
+  destruct (Z.leb_spec 0 (mIndex + diff)) as [P|P]; cbn [andb].
+  - destruct (Z.leb_spec (mIndex + diff) (count_of mArray)); reflexivity.
+  - destruct (Z.leb_spec (mIndex + diff + 2 ^ 64) (count_of mArray)); [lia|reflexivity].
 Qed.
 (* the default-constructed iterator only tolerates += 0 *)
 Lemma arrit_advance_null (count_of : Z -> Z) mIndex diff :
-  op_add_assign count_of 0 mIndex diff = if diff =? 0 then Ok (tt, wrapU 64 (wrapS 64 mIndex + diff)) else Exn.
-Proof. unfold op_add_assign, Gen_ArrayIndexIterator.checkMode. cbv zeta. simpl. destruct (diff =? 0); reflexivity. Qed.
+  op_add_assign count_of 0 mIndex diff = if diff =? 0 then Ok (tt, wrapU 64 (mIndex + wrapU 64 diff)) else Exn.
+Proof.
+  unfold op_add_assign, Gen_ArrayIndexIterator.checkMode. cbv zeta.
+  change (negb (2 =? 1)) with true. change (2 =? 2) with true. change (0 =? 0) with true. cbn [orb negb].
+  destruct (diff =? 0); reflexivity.
+Qed.
 (* FRAME: operator+= is the only member that writes mIndex; whenever it writes, the new index is inside [0, count] *)
 Lemma arrit_advance_preserves_range (count_of : Z -> Z) mArray mIndex diff i' :
   mArray <> 0 -> op_add_assign count_of mArray mIndex diff = Ok (tt, i') -> 0 <= i' <= count_of mArray.
 Proof.
-  intros NZ. unfold op_add_assign, Gen_ArrayIndexIterator.checkMode. cbv zeta. simpl.
-  destruct (Z.eqb_spec mArray 0); [congruence|]. simpl.
-  destruct (Z.leb_spec (wrapU 64 (wrapS 64 mIndex + diff)) (count_of mArray)) as [L|L]; simpl; intros HH; inversion HH; subst.
+  intros NZ. unfold op_add_assign, Gen_ArrayIndexIterator.checkMode. cbv zeta.
+  change (negb (2 =? 1)) with true. change (2 =? 2) with true. cbn [orb].
+  destruct (Z.eqb_spec mArray 0); [congruence|]. cbn [negb].
+  destruct (Z.leb_spec (wrapU 64 (mIndex + wrapU 64 diff)) (count_of mArray)) as [L|L]; cbn [negb]; intros HH; inversion HH; subst.
   split; [|assumption]. unfold wrapU. apply Z.mod_pos_bound. lia.
 Qed.
 (* operator-> / operator*  (fix 813fdb2): accepted iff the iterator is attached and its index is below the count *)
@@ -214,3 +232,32 @@ Proof.
 Qed.
 Lemma segmented_same_code c i : SegIndex_guard c i = Index_guard c i /\ SegRemoveBack_guard c i = RemoveBack_guard c i.
 Proof. split; reflexivity. Qed.
+
+(* ---------- DataRawIterator::operator+= / operator-> (the iterators of a DataSelection; e44962b also fixed this sum) ---------- *)
+Lemma rawit_advance_exact (count_of : Z -> Z) idx diff raws :
+  raws <> 0 -> 0 <= idx <= count_of raws -> count_of raws < 2 ^ 63 -> - 2 ^ 63 <= diff < 2 ^ 63 ->
+  raw_add_assign idx count_of diff raws = if (0 <=? idx + diff) && (idx + diff <=? count_of raws) then Ok (idx + diff) else Exn.
+Proof.
+  intros NZ Hi Hc Hd. unfold raw_add_assign, Gen_DataRawIterator.checkMode. cbv zeta.
+  rewrite (wrapU_add_signed idx diff) by lia.
+  change (negb (2 =? 1)) with true. change (2 =? 2) with true. cbn [orb].
+  destruct (Z.eqb_spec raws 0); [congruence|]. cbn [negb].
+  destruct (Z.leb_spec 0 (idx + diff)) as [P|P]; cbn [andb].
+  - destruct (Z.leb_spec (idx + diff) (count_of raws)); reflexivity.
+  - destruct (Z.leb_spec (idx + diff + 2 ^ 64) (count_of raws)); [lia|reflexivity].
+Qed.
+(* same code as ArrayIndexIterator::operator+= (its guard is re-evaluated by the base-class operator+= right after) *)
+Lemma rawit_advance_same_code (count_of : Z -> Z) idx diff raws :
+  raw_add_assign idx count_of diff raws =
+    match op_add_assign count_of raws idx diff with Ok (_, i) => Ok i | Stuck => Stuck | Fuel => Fuel | Exn => Exn end.
+Proof.
+  unfold raw_add_assign, op_add_assign, Gen_DataRawIterator.checkMode, Gen_ArrayIndexIterator.checkMode. cbv zeta.
+  change (negb (2 =? 1)) with true. change (2 =? 2) with true. cbn [orb].
+  destruct (negb (raws =? 0)); [destruct (wrapU 64 (idx + wrapU 64 diff) <=? count_of raws)|destruct (diff =? 0)]; reflexivity.
+Qed.
+Lemma rawit_deref_exact (count_of : Z -> Z) idx raws :
+  raw_arrow idx count_of raws = if negb (raws =? 0) && (idx <? count_of raws) then Ok tt else Exn.
+Proof.
+  unfold raw_arrow, Gen_DataRawIterator.checkMode. cbv zeta. change (negb (2 =? 1)) with true. change (2 =? 2) with true. cbn [orb].
+  destruct (raws =? 0), (idx <? count_of raws); reflexivity.
+Qed.
